@@ -57,7 +57,10 @@ def harness(ctx, binp, mode, pool, progs, args, timeout=1500):
 # several areas, refused allocations, recycled structures (mode areas of the harness, spec/Areas_Trace.tla):
 # (pool, programs, pb quick, pb thorough)
 AREAS = [(2, "F,A", 3, 4), (2, "R,R", 3, 4), (2, "FR,AR", 2, 3), (2, "AR,AR", 2, 3), (0, "F,A", 3, 4),
-         (2, "UR,FA", 2, 3), (1, "RA,RF", 2, 3), (2, "R,R,R", 2, 3)]
+         (2, "UR,FA", 2, 3), (1, "RA,RF", 2, 3), (2, "R,R,R", 2, 3),
+         # segmented blocks (P: a new area appended to my buffer, X: a segment that cannot be duplicated -
+         # the dup that follows fails after the segments before it were duplicated)
+         (2, "PUR,R", 2, 3), (2, "XUR,R", 2, 3), (0, "XUR,UR", 2, 3), (1, "PXUR,AR", 2, 2), (2, "XUAR,XUR", 1, 2)]
 
 
 # one area across two managers and two allocators (a block built on a picture's plane): who lets go last,
@@ -84,6 +87,8 @@ def run_areas(ctx, binp):
     ctx.extra["areas_schedules_run_on_real_code"] = runs
     if not any(e["e"] == "Refused" for h, _ in pool for e in h):
         raise vlib.ToolError("vacuity: no allocation was refused in mode areas")
+    if not any(e["e"] == "DupFailed" for h, _ in pool for e in h) or not any(e["e"] == "Append" for h, _ in pool for e in h):
+        raise vlib.ToolError("vacuity: no duplication of a segmented block failed / no area was appended in mode areas")
     # vacuity (xareas): the picture's allocator does go away, and in some schedules the block is the last holder
     if not any(e["e"] == "AllocDead" for h, _ in pool for e in h):
         raise vlib.ToolError("vacuity: the picture manager's allocator never ran its destructor in mode xareas")
